@@ -3,6 +3,7 @@ package value
 import (
 	"fmt"
 	"sync"
+	"sync/atomic"
 )
 
 var RWMutexClass *Class              // ::Std::Sync::RWMutex
@@ -11,6 +12,9 @@ var RWMutexUnlockedErrorClass *Class // ::Std::Sync::RWMutex::UnlockedError
 // Wraps a Go RWMutex.
 type RWMutex struct {
 	Native sync.RWMutex
+	// unlocking an unlocked sync.RWMutex is a fatal error that cannot be recovered
+	writeLocked atomic.Bool
+	readers     atomic.Int64
 }
 
 func NewRWMutex() *RWMutex {
@@ -55,10 +59,12 @@ func (*RWMutex) InstanceVariables() *InstanceVariables {
 
 func (m *RWMutex) Lock() {
 	m.Native.Lock()
+	m.writeLocked.Store(true)
 }
 
 func (m *RWMutex) ReadLock() {
 	m.Native.RLock()
+	m.readers.Add(1)
 }
 
 func (m *RWMutex) Unlock() (err Value) {
@@ -68,6 +74,9 @@ func (m *RWMutex) Unlock() (err Value) {
 		}
 	}()
 
+	if !m.writeLocked.CompareAndSwap(true, false) {
+		return Ref(NewError(RWMutexUnlockedErrorClass, "a rwmutex that is unlocked for writing cannot be unlocked for writing"))
+	}
 	m.Native.Unlock()
 	return Undefined
 }
@@ -79,6 +88,15 @@ func (m *RWMutex) ReadUnlock() (err Value) {
 		}
 	}()
 
+	for {
+		n := m.readers.Load()
+		if n <= 0 {
+			return Ref(NewError(RWMutexUnlockedErrorClass, "a rwmutex that is unlocked for reading cannot be unlocked for reading"))
+		}
+		if m.readers.CompareAndSwap(n, n-1) {
+			break
+		}
+	}
 	m.Native.RUnlock()
 	return Undefined
 }
